@@ -18,6 +18,13 @@ def _net(ver, v, p):
     return n
 
 
+def _attrs(n):
+    b = n.broadcast
+    c = n.cidr
+    return [int(n.ip), int(n.network), None if b is None else int(b), n.first, n.last, int(n.netmask),
+            int(n.hostmask), n.size, [c._value, c._prefixlen]]
+
+
 def impl_net_attrs(ver, v, p):
     n = _net(ver, v, p)
     b = n.broadcast
@@ -42,6 +49,7 @@ def _arg(a):
 def impl_net_setops(ver, v, p, ops):
     n = _net(ver, v, p)
     out = []
+    _attrs(n)          # read every attribute once before the first assignment (anything cached must not survive a setter)
     for name, a in ops:
         before = (n.version, n._value, n._prefixlen)
         e = None
@@ -50,7 +58,7 @@ def impl_net_setops(ver, v, p, ops):
         except Exception as ex:  # noqa
             from harness.wire import exn_of
             e = exn_of(ex)
-        out.append([[n.version, n._value, n._prefixlen], e])
+        out.append([[n.version, n._value, n._prefixlen], e, _attrs(n)])
     return out
 
 
@@ -107,7 +115,10 @@ def orc_net_setops(args, res):
         return "harness-level failure %s" % res.name
     cur = [ver, v, p]
     w = gens.W[ver]
-    for (name, a), (post, e) in zip(ops, res):
+    for (name, a), (post, e, attrs) in zip(ops, res):
+        m = orc_net_attrs(post, attrs)
+        if m:
+            return "after %s setter: %s" % (name, m)
         if e is not None:
             if e.name not in ("AddrFormatError", "ValueError", "TypeError"):
                 return "setter %s raised %s" % (name, e.name)
